@@ -1,7 +1,7 @@
 (* Property C08 — locked LP can only return to its owner, only after unlocking, and in full.
    Statements only; proofs in Proofs/FarmProofs.v, Proofs/FarmChainProofs.v, Proofs/PmProofs.v, Proofs/AuthProofs.v. *)
 From MD.Model Require Import Base Ownable Epoch PoolMath Types PoolManager FarmManager Chain.
-From MD.Proofs Require Import ChainProofs PmProofs AuthProofs WeightProofs FarmProofs FarmChainProofs BankProofs TxBalances PositionsSafe PositionsExample.
+From MD.Proofs Require Import ChainProofs PmProofs AuthProofs WeightProofs FarmProofs FarmChainProofs BankProofs TxBalances PositionsSafe PositionsExample FarmCustody FarmCustodyChain Redeemable.
 
 (* who may do what with a position *)
 Theorem C08_position_roles : forall w sender funds m s' msgs,
@@ -190,6 +190,29 @@ Proof. exact closed_position_still_withdrawable. Qed.
 Theorem C08_positions_example : positions_statement.
 Proof. exact positions_example. Qed.
 
+(* "HENCE every position can be withdrawn in full ... at any time": in every world where the custody invariant holds
+   (every reachable world, C05_custody_in_every_reachable_world) and no fault is being injected, the WITHDRAWAL TRANSACTION of a closed
+   position whose unlock instant has been reached, sent by its owner, SUCCEEDS - the handler accepts it (C08_withdraw_iff)
+   and the farm manager's bank balance covers the transfer of the whole recorded amount (C05); what it moves is
+   C08_withdrawal_transaction_moves_exactly_these_balances. (Side conditions of a real bank: the owner is not the farm
+   manager itself, his balance is not negative and stays within u128.) *)
+Theorem C08_closed_position_withdrawal_transaction_succeeds : forall g w0 ops o id q e,
+  genesis_world g = Ok w0 -> 0 <= amount_of (fm_create_fee (g_fm g)) -> Forall op_ok ops ->
+  let w := run w0 ops in
+  w_fault w = None ->
+  sfind pos_id id (fm_positions (w_fm w)) = Some q -> pos_recv q = o -> pos_open q = false -> pos_exp q = Some e ->
+  e <= seconds (w_block w) ->
+  o <> FM ->
+  0 <= bal (w_bank w) o (denom_of (pos_lp q)) ->
+  bal (w_bank w) o (denom_of (pos_lp q)) + amount_of (pos_lp q) <= U128_MAX ->
+  exists w', run_tx w o FM (WFm (FmPosWithdraw id None)) [] = Ok w'.
+Proof. exact reachable_closed_position_withdrawable. Qed.
+
+(* ... on a real history (kernel-evaluated): after everything bob and carol did, alice's withdrawal transaction is
+   accepted and moves exactly 500000 LP from the farm manager to her *)
+Theorem C08_redeem_example : redeem_statement.
+Proof. exact redeem_example. Qed.
+
 Print Assumptions C08_position_roles.
 Print Assumptions C08_pool_manager_locks_only_for_depositor.
 Print Assumptions C08_withdraw_iff.
@@ -206,3 +229,5 @@ Print Assumptions C08_positions_survive_other_peoples_histories.
 Print Assumptions C08_positions_survive_in_every_reachable_world.
 Print Assumptions C08_closed_position_still_withdrawable_after_any_history_of_others.
 Print Assumptions C08_positions_example.
+Print Assumptions C08_closed_position_withdrawal_transaction_succeeds.
+Print Assumptions C08_redeem_example.
